@@ -21,7 +21,7 @@ EXTENDS Integers, Sequences, FiniteSets, TLC, Json
 ContentTypes == {"json", "jsonparams", "textplain", "none", "other"}
 SimpleBodies == {"empty", "garbage", "null", "number", "string", "emptyobject", "emptyarray", "truncated"}
 
-QueryClasses == {"valid", "validmutation", "syntaxerror", "unknownfield", "manyopsnoname", "manyopsrightname", "wrongopname",
+QueryClasses == {"valid", "anonymous", "validmutation", "syntaxerror", "unknownfield", "manyopsnoname", "manyopsrightname", "wrongopname",
                  "roottypename", "introspection", "introspectionmixed", "introspectionvars", "lonelyinterface"}
 QMember == {"missing", "empty", "number", "null"} \cup QueryClasses
 VMember == {"absent", "null", "object", "string", "array"}
@@ -50,6 +50,7 @@ Shapes ==
 InvalidQuery(q, opn) == \/ q \in {"syntaxerror", "unknownfield", "manyopsnoname"}
                         \/ q = "manyopsrightname" /\ opn # "string"      \* two operations, no name given
                         \/ q = "wrongopname" /\ opn = "string"            \* a name that is not in the document
+                        \/ q = "anonymous" /\ opn = "string"              \* a name, but the only operation has none
 
 ElemDecodable(e) == e \in {"valid", "valid2", "invalidquery", "introspection"}
 PathOK(p, batch) ==
